@@ -17,7 +17,29 @@ DESUGAR = True
 PN = "pkgname::PkgName::new"
 
 
+COPY_CALLS = ("::to_string", "String as std::convert::From", "::from", "::to_owned", "Clone>::clone", "::into", "ToString", "ToOwned")
+
+
+def altered_after_split(term):
+    """name of a call that sits between the stored / returned value and the split that produced it and is neither a view nor a plain copy
+    (trim_end_matches, to_lowercase, replace ..): the part is no longer the text that was cut out"""
+    t = strip_refs(term)
+    for _ in range(10):
+        if isinstance(t, tuple) and t and t[0] == "deref":
+            t = strip_refs(t[1])
+        elif is_call(t, *(VIEW_CALLS + COPY_CALLS)) and call_args(t):
+            t = strip_refs(call_args(t)[0])
+        else:
+            break
+    if is_call(t) and not is_index_call(t) and not is_call(t, "str>::split_at", "str>::get", "str>::get_unchecked", "::unwrap_or", "::unwrap_or_default", "::map", "::map_or", "::and_then"):
+        return mir.norm_path(t[1]).rsplit("::", 1)[-1]
+    return None
+
+
 def check_part(ctx, fn, body, inst, term, role, subject_pred, span):
+    alt = altered_after_split(term)
+    if alt is not None:
+        ctx.violation("D2-UNALTERED", fn, inst, "%s is passed through %s() after the split: it is no longer the text cut out of the name" % (inst, alt), span)
     # normal form first: subject[start..end] with searched positions (covers rsplit_once, rfind + split_at, rfind + slicing, rsplitn(2) + index)
     ss = substr(term)
     r = substr_role(ss)
@@ -221,3 +243,6 @@ def run(ctx):
     # ---- D4-REVISION-USED: the PKGREVISION that PkgName reports is the one the version comparison uses: dewey_cmp compares lhs.pkgrevision with
     #      rhs.pkgrevision, last, on every path that ties (C03's CMP-3 / CMP-5 / CMP-RET verdicts, shared)
     share_rules(ctx, "C03", ("CMP-3", "CMP-5", "CMP-RET"), "D4-REVISION-USED", "dewey::dewey_cmp", 4)
+    # ... and the revision the comparison works with is read the same way: the number after the LAST nb replaces any earlier one (C01's table row
+    #     for the `nb` literal, shared)
+    share_rules(ctx, "C01", ("D1-TOK-TABLE",), "D4-REVISION-USED", "dewey::DeweyVersion::new", 8)
